@@ -179,6 +179,19 @@ Proof.
   apply (step_ext o). intros l zeta Tl. now rewrite (E l (nonterminal_lt l Tl)).
 Qed.
 
+(** every solution of the equations of [G] extends to a solution of those of [G'] with the same
+    values on the original labels (no order needed; the converse is [fixpoint_restrict]) *)
+Theorem fixpoint_extend (x : env (R:=R)) : fixpoint o G w x ->
+  fixpoint o G' w (ext x) /\ forall l, l < n0 -> ext x l = x l.
+Proof.
+  intro F. split; [|apply ext_orig]. intros X xi TX'.
+  destruct (Nat.lt_ge_cases X n0) as [HX|HX].
+  - assert (TX : is_term G X = false) by (rewrite <- (rf_term _ _ _ _ _ _ RF X HX); exact TX').
+    rewrite (ext_orig x X HX), (step_ext_orig _ x (ext_fresh_eqs x) (fun l' Hl' => ext_orig x l' Hl') X xi HX TX).
+    now apply F.
+  - symmetry. now apply ext_fresh_eqs.
+Qed.
+
 (** ** upper bound: an iterate of [G'] is below the same iterate of [G], fresh nonterminals solved *)
 Theorem Zk_refines_upper_ext : forall k, SP_mono.env_le o (Zk o G' w k) (ext (Zk o G w k)).
 Proof.
@@ -219,6 +232,10 @@ Proof.
   - rewrite <- (step_ext_orig _ (Zk o G w k) (ext_fresh_eqs _) (fun l' Hl' => ext_orig _ l' Hl') X xi HX T).
     apply (SP_mono.step_mono o Hr Ho). unfold ext. apply fiter_below_Zk. intros l zeta Hl. now apply IH.
 Qed.
+
+Corollary Zk_refines_sandwich k X xi : X < n0 ->
+  Zk o G' w k X xi <== Zk o G w k X xi /\ Zk o G w k X xi <== Zk o G' w ((M + 2) * k) X xi.
+Proof. intro HX. split; [now apply Zk_refines_upper|now apply Zk_refines_lower]. Qed.
 
 (** ** same upper bounds, same suprema, same enclosures *)
 Definition is_sup (f : nat -> R) (s : R) : Prop :=
